@@ -140,6 +140,15 @@ package hcldec
 //@ maypanic
 //@ ensures typeOf(ret0) == cty.String
 
+// ---- block as a map of attributes (unit U17f) ----
+// verif:func (*BlockAttrsSpec).impliedType
+//@ pure
+//@ ensures ret == mapOf(s.ElementType)
+// No panic from the map constructor: cty.MapVal needs elements of one type.
+// verif:func (*BlockAttrsSpec).decode
+//@ nosafety
+//@ requires content != nil
+
 // ---- block lists and sets (unit U17b) ----
 // verif:func (*BlockListSpec).impliedType
 //@ requires s.Nested != nil
